@@ -76,3 +76,11 @@ contract("C10.validate_temporal_relations",
              "def_tags_of(temporal_markers_of(hed_string_obj)[j][1])[0].extension.casefold() == def_tags_of(temporal_markers_of(hed_string_obj)[k][1])[0].extension.casefold() for j in range(k)) for k in range(_n))))",
          ]}},
          assume=["HedString.find_top_level_tags / HedGroup.find_def_tags are deterministic views (temporal_markers_of, def_tags_of)"])
+
+# C10/C07/C20 "rows that share an onset take effect in file order": the onset sort is a STABLE sort (pandas' default quicksort is not) and
+# works on a copy of the caller's table
+contract("C10.onset_sort_is_stable", file="hed/models/df_util.py", func="sort_dataframe_by_onsets",
+         params={"df": "Opaque"}, returns="Opaque", enc="native", also=["C07", "C20"], unwind="havoc",
+         ghost={"call_requires": {"sort_values": {"kind": ["mergesort", "stable"]}}, "init": {"seen_sort_values": "False"}},
+         ensures={},
+         assume=["pandas: sort_values(kind='mergesort'|'stable') keeps equal keys in their given order; other kinds need not"])
